@@ -146,6 +146,36 @@ def r_fmt_twins(ctx):
                               "unrelated cargo feature" % (name, outs["default"], outs[cfgname], cfgname))
 
 
+def r_tabletwins(ctx):
+    import valtables as vt
+    rid = "C19.tabletwins"
+    ctx.rule(rid, "the validators' literal-comparison and range tables evaluate to the same verdict on every point under the default "
+                  "configuration, without ast-span and without additional-controls: the cfg twins of visit_value / visit_range agree "
+                  "(abstract evaluation under each configuration)", floor=800)
+    for which in ("json", "cbor"):
+        for tname, fn, keyf in (("cmp", vt.cmp_table, lambda r: (r["kind"], r["ctrl"], r["point"])),
+                                ("range", vt.range_table, lambda r: (r["bounds"], r["incl"], r["doc"], r["point"]))):
+            base = {keyf(r): r for r in fn(ctx.facts, which, "default")}
+            for cfgname in ("no-ast-span", "no-additional-controls"):
+                for r in fn(ctx.facts, which, cfgname):
+                    k = keyf(r)
+                    b = base.get(k)
+                    key = "%s|%s|%s|%s" % (which, tname, cfgname, "|".join(str(x) for x in k))
+                    if b is None:
+                        continue
+                    if r["verdict"].startswith("unknown") or b["verdict"].startswith("unknown"):
+                        if r["verdict"] != b["verdict"]:
+                            ctx.incomplete_msg(rid, "%s: %s vs %s" % (key, b["verdict"], r["verdict"]))
+                        continue
+                    ctx.site(rid, key, r["file"], r["line"], None)
+                    if r["verdict"] != b["verdict"]:
+                        ctx.violation(rid, key, r["file"], r["line"], "%s validator, %s table, point %s: %s under the default configuration but %s under %s"
+                                      % (which, tname, k, b["verdict"], r["verdict"], cfgname))
+
+
 def run(ctx):
     ctx.guarded("C19.fmt-twins", r_fmt_twins)
     ctx.guarded("C19.build", r_build)
+    ctx.guarded("C19.tabletwins", r_tabletwins)
+    import c09
+    ctx.guarded("C19.valtwins", lambda c: c09.r_absent(c, "C19.valtwins", cfgs=("default", "no-ast-span")))
